@@ -226,8 +226,23 @@ fn verif_root() -> String {
     std::env::var("VERIF_ROOT").unwrap_or_else(|_| "/verif".to_string())
 }
 
+/// marks the time this process spends waiting for a child (the watchdog's idle rule must not take it for a deadlock)
+struct ChildWait;
+impl ChildWait {
+    fn begin() -> ChildWait {
+        crate::ctx::WAITING_FOR_CHILD.store(true, std::sync::atomic::Ordering::Relaxed);
+        ChildWait
+    }
+}
+impl Drop for ChildWait {
+    fn drop(&mut self) {
+        crate::ctx::WAITING_FOR_CHILD.store(false, std::sync::atomic::Ordering::Relaxed);
+    }
+}
+
 fn sanitizer() -> &'static Sanitizer {
     SANITIZER.get_or_init(|| {
+        let _w = ChildWait::begin();
         let root = verif_root();
         let target = format!("{root}/.cache/asan-target");
         let bin = format!("{target}/x86_64-unknown-linux-gnu/release/hsverif");
@@ -285,9 +300,12 @@ fn sanitized(label: &str, input: &str, tag: &str) -> Option<String> {
         .env("C18_CURRENT", &cur)
         .env("VERIF_CASE_TIMEOUT_MS", "600000")
         .env_remove("RUST_BACKTRACE");
-    let o = match cmd.output() {
-        Ok(o) => o,
-        Err(e) => return Some(format!("cannot start the sanitized harness: {e}")),
+    let o = {
+        let _w = ChildWait::begin();
+        match cmd.output() {
+            Ok(o) => o,
+            Err(e) => return Some(format!("cannot start the sanitized harness: {e}")),
+        }
     };
     let err = String::from_utf8_lossy(&o.stderr).to_string();
     let child_fails = std::fs::read_to_string(format!("{dir}/fails.jsonl")).unwrap_or_default();
